@@ -13,41 +13,26 @@ CLAIMS = {
             "Partial proof + differential correspondence. Trusted: Lean kernel; native_decide for the closed checkers "
             "sweepOk/scanOk/templateOk; hand model tied by correspondence; Spec.Decode as my reading of ISO 18004.",
             "Lean 4 stage theorems (symbolic + tier K/N finite checks on regenerated tables) + reference decoder in Lean run on real symbols"),
-    "C02": ("proof",
-            "Lean 4: C02_layout (ecc_to_groups = ISO Table 9, generator degree = EC per block, data/total codeword sums; "
-            "decide +kernel over all 160 regenerated rows), C02_remainder_table, C02_bounds; zero syndromes follow from the "
-            "remainder theorem of C07. Spec verdict on every real symbol: Table 9 split, zero remainder bits, all syndromes zero. "
-            "The recovery corollary is cited (BCH bound), not proved (partial sentence).",
-            "Trusted: Lean kernel (+ axioms propext, Classical.choice, Quot.sound); table translator; ISO Table 9 transcription.",
-            "Lean 4 decide +kernel on regenerated tables + syndrome check of real symbols in Lean GF(256)"),
-    "C03": ("proof",
-            "Lean 4: for all 40 versions every finder/separator/timing/alignment/dark cell of the model's blank symbol has the ISO "
-            "value and the drawing never leaves the size x size square (templateOk, native_decide + kernel-checked lift "
-            "C03_template), alignment grid = Annex E and side = 17+4v (decide +kernel on regenerated tables); masks only touch "
-            "Data-typed cells for EVERY matrix (C08_mask_flips). Spec verdict on real symbols of every version x level x mask.",
-            "Trusted: Lean kernel; native_decide on templateOk; hand model of default.rs tied by exhaustive-in-version correspondence.",
-            "Lean 4 proof (tier N closed checker with kernel-checked soundness lift + tier K tables) + differential correspondence"),
-    "C04": ("proof",
-            "Lean 4: all 32 format words = BCH(15,5)(level bits, mask) xor 0x5412 and all 34 version words = BCH(18,6) (decide +kernel "
-            "on the regenerated tables), side = 17+4v, format words pairwise distinct, reported fields = forced options with "
-            "default Q and classifier mode (C04_fields, symbolic). Spec verdict on real symbols, exhaustive 4x8x40: both copies of "
-            "both words read at the ISO positions of Figures 25/26, reported fields, encoded mode.",
-            "Trusted: Lean kernel; translator; ISO figure coordinates as transcribed.",
-            "Lean 4 decide +kernel on regenerated tables + symbolic field theorem + exhaustive differential check"),
-    "C06": ("proof",
-            "Lean 4: KEEP_LAST = 2^i-1, pad bytes, count widths = ISO Table 3 (<= 16 bits), alphanumeric values = Table 5 on the "
-            "regenerated tables; the byte-level refinement theorem (push_bits = append bits) is not yet closed (partial). Spec "
-            "verdict on real symbols: the data codewords read back from the matrix equal Spec.Bitstream.codewords (independent "
-            "ISO 7.4 encoder) for lengths hitting every residue and 0..12 spare bits in every (version, level).",
-            "Partial proof + correspondence. Trusted: Lean kernel; hand model of compact.rs/encode.rs tied by correspondence.",
-            "Lean 4 tier K tables + independent ISO 7.4 encoder in Lean compared with codewords read from real symbols"),
-    "C07": ("proof",
-            "Lean 4: LOG is the orbit of alpha modulo 0x11D, ANTILOG its inverse, each of the 13 generator literals = prod (x - alpha^i) "
-            "(decide +kernel on regenerated tables), degree map = Table 9 (C02_layout). Spec verdict through the hook on the real "
-            "division: EC codewords = remainder computed by table-free schoolbook division in Lean, for unit vectors at every "
-            "position, zero-heavy and random blocks, every (generator, block length) in use.",
-            "Trusted: Lean kernel; translator; the remainder theorem for arbitrary blocks is carried by correspondence until Proofs/Division closes.",
-            "Lean 4 decide +kernel on regenerated GF tables/generators + table-free GF(256) remainder in Lean vs real division"),
+    "C02": ('proof',
+            "Lean 4: C02_layout (ecc_to_groups = ISO Table 9, generator degree, codeword sums; decide +kernel over all 160 regenerated rows), C02_syndromes — for every version, level and EVERY content of a Table 9-sized block, data ++ EC (as computed by the model of division with the crate's generator) has all-zero syndromes at alpha^0..alpha^(ec-1): table product = field product, division loop = schoolbook remainder, remainder modulo prod(x - alpha^i) vanishes at the roots (field laws derived from the shift-and-xor definition). Spec verdict on every real symbol: Table 9 split, zero remainder bits, all syndromes zero. The recovery corollary is cited (BCH bound), not proved.",
+            'Trusted: Lean kernel (+ propext, Classical.choice, Quot.sound); table translator; ISO Table 9 transcription. Interleaving order = ISO order: tier N checker interleaveOk.',
+            'Lean 4 symbolic algebra over GF(256) + decide +kernel on regenerated tables + syndrome check of real symbols'),
+    "C03": ('proof',
+            'Lean 4: C03_invariance — for EVERY input and every level / mask / mode / version option for which the model builder returns a symbol, the side is 17+4v and every finder, separator, timing, alignment and dark-module cell has the ISO value (blank symbol = ISO map for all 40 versions by the native_decide checker templateOk with a kernel-checked lift; data placement, format writer and all eight masks provably change only Data- and Format-typed cells); alignment grid = Annex E, no access outside size x size (C03_template_in_bounds). Spec verdict on real symbols of every version x level x mask incl. the backing array beyond size^2.',
+            'Trusted: Lean kernel; native_decide on templateOk/scanOk/sweepOk/formatPosOk; hand model of default.rs/placement.rs/datamasking.rs tied by correspondence; Spec.Regions as my reading of ISO 6.3 / Annex E.',
+            'Lean 4 proof (tier N closed checkers with kernel-checked lifts + symbolic invariance through placement, format writer and masks) + differential correspondence'),
+    "C04": ('proof',
+            'Lean 4: all 32 format words = BCH(15,5)(level bits, mask) xor 0x5412, all 34 version words = BCH(18,6), side = 17+4v, format words distinct (decide +kernel on regenerated tables); C04_format_in_symbol — in EVERY symbol the model builder returns each position of Figure 25 (both copies) holds the corresponding bit of the BCH word of the REPORTED (level, mask) and masks never touch it; version cells carry the BCH word (C04_version_cells); reported fields = forced options, default Q, classifier mode (C04_fields). Spec verdict on real symbols, exhaustive 4x8x40.',
+            'Trusted: Lean kernel; native_decide on formatPosOk/versionCellsOk/templateOk/sweepOk/scanOk; translator; ISO figure coordinates as transcribed.',
+            'Lean 4 decide +kernel on regenerated tables + symbolic placement theorem + exhaustive differential check'),
+    "C06": ('proof',
+            "Lean 4, fully symbolic, for EVERY payload of the mode's alphabet, every mode, level and version it fits: the byte-level push_bits (shifts, KEEP_LAST masks, |=, the push_u8 loop, +=) appends exactly the w low bits, most significant first, for every width <= 64 and alignment, keeps 'bits beyond len are zero' and never traps (C06_push_bits, Nat.testBit reasoning); encode::encode emits segment ++ terminator ++ bit padding ++ pad codewords (C06_segment); the first data_codewords bytes equal the independent ISO 7.4 encoder Spec.Bitstream.codewords (C06_bitstream). Tables (KEEP_LAST, pad bytes, count widths, alphanumeric values) are regenerated and checked by decide +kernel. Correspondence: push_bits scripts through the hook for every (len%8, width 0..64); data codewords read back from real symbols vs the ISO encoder.",
+            'Trusted: Lean kernel (axioms propext, Classical.choice, Quot.sound); hand model of compact.rs / encode.rs tied by unit-level and end-to-end correspondence; Spec.Bitstream as my reading of ISO 7.4.',
+            'Lean 4 symbolic proof (bit-level refinement + induction over digit/pair/byte groups) + tier K tables + differential correspondence'),
+    "C07": ('proof',
+            'Lean 4: LOG is the orbit of alpha modulo 0x11D, ANTILOG its inverse, each of the 13 generator literals = prod (x - alpha^i) (decide +kernel on regenerated tables); C07_table_mul — the log-domain product LOG[(e+ANTILOG[x])%255] is the field product; C07_remainder — for EVERY block content (leading / interior zeros included) the model of polynomials::division returns the schoolbook remainder of data(x)x^ec modulo the generator over table-free GF(256); C07_syndromes — hence data ++ ec vanishes at alpha^0..alpha^(ec-1). Correspondence through the hook: real division on unit vectors at every position, zero-heavy and random blocks for every (generator, block length) in use, compared with table-free schoolbook division in Lean.',
+            'Trusted: Lean kernel (+ propext, Classical.choice, Quot.sound); translator; hand model of division tied by unit-level correspondence.',
+            'Lean 4 symbolic algebra (field laws, loop invariant) + decide +kernel on regenerated GF tables/generators + differential unit check'),
     "C08": ("proof",
             "Lean 4, for every legal side, mask and EVERY matrix: the model sweep flips exactly the Data-typed cells where the ISO "
             "Table 10 condition holds (C08_mask_flips: induction over the sweep + native_decide visit-parity fact sweepOk), "
@@ -55,13 +40,10 @@ CLAIMS = {
             "correspondence: real datamasking::mask on the real blank symbols 40 x 8 x 2; all 28 mask pairs of real builds.",
             "Trusted: Lean kernel; native_decide on sweepOk; hand model of datamasking.rs tied by exhaustive unit correspondence.",
             "Lean 4 symbolic induction + tier N parity checker + exhaustive differential unit check"),
-    "C10": ("proof",
-            "Lean 4 on a trap-instrumented model: outcome is Ok or one of two errors, blank-symbol drawing, every mask sweep and the "
-            "zig-zag scan are trap-free for all versions, placed-bit count = 8*codewords + remainder (the debug_assert), block + "
-            "generator fit division's buffer, add_terminator's subtraction cannot wrap (C05). The byte-level push_bits bounds and "
-            "the composition are open (partial). Real builder run with debug-assertions and overflow-checks on lengths 0..8000.",
-            "Partial proof + exploration with panics caught. Not modelled: stack/heap exhaustion.",
-            "Lean 4 trap-freedom lemmas per stage + differential run of the real builder with overflow checks on"),
+    "C10": ('proof',
+            "Lean 4: C10_total — for EVERY byte string and every legal option combination whose mode (forced or automatic) can represent the input, the trap-instrumented model of QRBuilder::build records no trap (every index, slice, checked subtraction, u8 +=, assert, unreachable, PERCENT_SCORE index, u32 sum of the Rust code is a trap point of the model): composed from the bit-buffer law, structure's bounds, the blank-symbol / scan / sweep checkers, placed-bit count = 8*codewords + remainder (the debug_assert), score bounds and the format writer; C10_total_auto needs no alphabet hypothesis. Real builder run with debug-assertions and overflow-checks on lengths 0..8000, every capacity boundary of the implementation's own table, every byte value in digit/alnum context.",
+            "Trusted: Lean kernel; native_decide for templateOk/scanOk/sweepOk/formatPosOk/interleaveOk; hand model tied by correspondence incl. a malformed stream that validates the model's traps. Not modelled: stack/heap exhaustion.",
+            'Lean 4 proof of trap-freedom of an instrumented model (symbolic + tier K/N) + differential run with overflow checks on'),
     "C11": ("proof",
             "Lean 4: the selection fold returns an argmin of the ranking scores for every score list (C11_select_min), forced mask "
             "overrides (C11_forced), candidates are masks 0..7 (MASKS table), PERCENT_SCORE = 10*k. Recorder hook: the 8 real "
@@ -69,12 +51,10 @@ CLAIMS = {
             "that candidate, the emitted mask is a minimiser. Defect found and fixed (columns were scored on the unmasked transpose).",
             "Partial: symbolic equivalence line/squares = declarative penalty not yet proved; checked per candidate.",
             "Lean 4 fold invariant + declarative penalty in Lean evaluated on the recorded real candidates"),
-    "C15": ("proof",
-            "Lean 4: label of every cell of every version's blank symbol = ISO region (templateOk + kernel-checked lift "
-            "C15_template_labels), set/toggle preserve labels, Data cells in scan order = ISO read-out sequence, count = "
-            "8*codewords + remainder (scanOk). Spec verdict on real symbols: module_type() of every module = Spec.Regions.",
-            "Trusted: Lean kernel; native_decide on templateOk/scanOk; Spec.Regions as my reading of ISO 18004 6.3/Annex E.",
-            "Lean 4 tier N checkers with kernel-checked lifts + differential check of every label"),
+    "C15": ('proof',
+            'Lean 4: C15_labels — for EVERY input and option combination for which the model builder returns a symbol, the label of every module is its ISO region (blank symbol labels = ISO regions for all 40 versions by templateOk; set / toggle / the format writer preserve labels), Data cells in scan order = ISO read-out sequence, count = 8*codewords + remainder (scanOk). Spec verdict on real symbols: module_type() of every module = Spec.Regions, for every version x level x mask.',
+            'Trusted: Lean kernel; native_decide on templateOk/scanOk/sweepOk/formatPosOk; Spec.Regions as my reading of ISO 18004 6.3/Annex E.',
+            'Lean 4 tier N checkers with kernel-checked lifts + symbolic label preservation + differential check of every label'),
     "C05": ("proof",
             "Lean 4 theorems for every length, mode and level: the regenerated graph of Version::get equals the ISO least-fitting-version function (C05_get), the builder's error mapping (C05_build), header+payload bits never exceed the data bits of the returned version, forced or automatic (C05_no_overflow), count < 2^cci (C05_count_fits). Tables are re-extracted from the compiled source on every run, so the kernel re-checks the theorems against the current code; the public builder is additionally run on boundary/exhaustive lengths and compared with spec and model.",
             "Trusted: Lean kernel; axioms propext, Classical.choice, Quot.sound; translator (rustc, guarded hooks, fqv dump-tables, gen_tables.py); Version::get beyond len 8192 sampled + `_ => None` parsed from the source text; ISO Table 3/7 transcription.",
@@ -100,15 +80,10 @@ CLAIMS = {
             "in place, colours, one image element whose un-escaped href is the string. Defect found and fixed (href was not escaped).",
             "Trusted: Lean kernel; hand model tied by byte-exact string correspondence; Spec.SvgParse as the reading of 'well-formed' and 'anchored at'.",
             "Lean 4 inductive proofs on the SVG model + XML-subset recogniser in Lean run on real renderings + exact-string differential check"),
-    "C17": ("proof",
-            "Lean 4 on the model of src/wasm.rs, for EVERY content and EVERY history of option-setter calls with arbitrary "
-            "arguments: colour options always hold 4 bytes (C17_colour_invariant), the wasm layer adds no trap to the native "
-            "build (C17_no_wasm_traps), qr_svg = native SvgBuilder rendering of the mapped options / empty when not encodable "
-            "(C17_svg), qr = module values, each 0/1 (C17_qr, C17_qr_bits), partial image options handled (C17_partial_options). "
-            "Correspondence: wasm.rs compiled on the host; outputs byte-equal to the real native builders and to the model. "
-            "Two defects found and fixed (index panic on size-without-position; unwrap panics on malformed colours).",
-            "Trusted: Lean kernel; hand model of wasm.rs tied by exact correspondence; trap-freedom of the native build is C10 (partial). Not covered: wasm-bindgen glue, wasm32 widths.",
-            "Lean 4 invariant over setter histories + exact differential check of host-compiled wasm.rs against native builders"),
+    "C17": ('proof',
+            'Lean 4 on the model of src/wasm.rs, for EVERY content and EVERY history of option-setter calls with arbitrary arguments: colour options always hold 4 bytes (C17_colour_invariant), neither entry point records a trap (C17_total, using C10_total_auto), qr_svg = native SvgBuilder rendering of the mapped options / empty when not encodable (C17_svg), qr = module values, each 0/1 (C17_qr, C17_qr_bits), partial image options handled (C17_partial_options). Correspondence: wasm.rs compiled on the host; outputs byte-equal to the real native builders and to the model. Two defects found and fixed (index panic on size-without-position; unwrap panics on malformed colours).',
+            'Trusted: Lean kernel; native_decide checkers inherited from C10; hand model of wasm.rs tied by exact correspondence. Not covered: wasm-bindgen glue, wasm32 widths.',
+            'Lean 4 invariant over setter histories + totality + exact differential check of host-compiled wasm.rs against native builders'),
     "C18": ("proof",
             "Lean 4: on the regenerated image_placement graph (3 shapes x 40 versions, decide +kernel): frame side odd, "
             "nondecreasing in the version, 5b < 2n, n - b >= 16, image side integer and <= b (C18_table); symbolic in the margin "
